@@ -533,3 +533,27 @@ Definition park (cap : nat) (l : list econn) (c : econn) : park_result :=
   else if Nat.ltb 0 (snd c) then
     (if existsb (fun e => Nat.eqb (snd e) 0) l then ParkedDiscardingData else ParkFatalPanic)
   else NewDiscarded.
+
+(* ---------- a refused open leaves nothing ----------
+   service/builder/mod.rs BuilderWithServiceType::open: the service tag of the opening node is created
+   with ownership (a guard that removes the file when dropped), then the fallible steps run
+   (open_service_resource, open_dynamic_config_storage: ExceedsMaxNumberOfNodes, IsMarkedForDestruction, ...),
+   and only after the last of them the ownership is released (the tag then lives until ServiceState::drop).
+   The order of these steps is a row of own_decisions. *)
+Inductive ostep := OCreateTag | OFallible | OReleaseTag.
+Definition open_steps_code : list ostep :=
+  let o := decision "BuilderWithServiceType::open.step_order" in
+  if String.eqb o "create_service_tag < open_service_resource < open_dynamic_config_storage < release_tag_ownership"
+  then [OCreateTag; OFallible; OFallible; OReleaseTag]
+  else if String.eqb o "create_service_tag < release_tag_ownership < open_service_resource < open_dynamic_config_storage"
+  then [OCreateTag; OReleaseTag; OFallible; OFallible]
+  else [OReleaseTag; OCreateTag; OFallible].
+(* the k-th fallible step fails (early return, the guard is dropped: an OWNED tag is removed).
+   Some left = the open failed and `left` says whether the tag file is still there; None = it succeeded *)
+Fixpoint open_run (steps : list ostep) (k : nat) (ex own : bool) : option bool :=
+  match steps with
+  | [] => None
+  | OCreateTag :: r => open_run r k true true
+  | OReleaseTag :: r => open_run r k ex false
+  | OFallible :: r => match k with O => Some (ex && negb own) | S k' => open_run r k' ex own end
+  end.
